@@ -1,7 +1,9 @@
 import Genshi.Wire
 import Genshi.WireCore
 import Genshi.Model.Tf
+import Genshi.Model.TfLazy
 import Genshi.Model.TfFill
+import Genshi.Model.TfFillSpec
 namespace Driver.C20
 open Genshi Genshi.Sexp Genshi.Tf
 
@@ -32,6 +34,12 @@ def mstreamToSexp (s : MStream) : Sexp :=
 
 def bufsToSexp (b : Bufs) (ids : List Nat) : Sexp :=
   .list (ids.map fun i => .list [ofNat i, .list ((b.get i).map mevToSexp)])
+
+def bufFToSexp (b : BufF) (ids : List Nat) : Sexp :=
+  .list (ids.map fun i => .list [ofNat i, .list ((b i).map mevToSexp)])
+
+/-- growth allowance of a live buffer under injection before the model answers "does not terminate" -/
+def growth : Nat := 400
 
 def res? : Sexp → Option Res
   | .atom "N" => some .none
@@ -75,38 +83,12 @@ def op? : Sexp → Option Op
   | .list [.atom "cut", n, acc] => do let n ← n.toNat?; let acc ← acc.toBool?; pure (.cut n acc)
   | .list [.atom "map", all] => do let all ← all.toBool?; pure (.mapBang all)
   | .list [.atom "SUBST", .str p, .str r, n] => do let n ← n.toNat?; pure (.subst p r n)
+  | .atom "trace" => some .trace
+  | .list [.atom "maptext", .atom "rev"] => some (.mapText fun t _ => (t.reverse, false))
+  | .list [.atom "maptext", .atom "dup"] => some (.mapText fun t sf => (t ++ t, sf))
   | .list [.atom "filter", d] => do
       let d ← d.toBool?; pure (.filter (if d then dropComments else id))
   | _ => none
-
-/-- buffer ids a chain writes -/
-def writes : List Op → List Nat
-  | [] => []
-  | .copy id _ :: ops => id :: writes ops
-  | .cut id _ :: ops => id :: writes ops
-  | _ :: ops => writes ops
-
-def readsOf : Op → Option Nat
-  | .replace (.buf id) => some id
-  | .before (.buf id) => some id
-  | .after (.buf id) => some id
-  | .prepend (.buf id) => some id
-  | .append (.buf id) => some id
-  | _ => none
-
-/-- The links of a chain are lazily interleaved generators; `buffer()` is the only barrier.
-    Stage-wise composition is exact unless, between two barriers, a buffer is written twice,
-    or read by an injector and written (in either order). `w`, `r`: ids written / read in the
-    current stage. -/
-def stagewise : List Nat → List Nat → List Op → Bool
-  | _, _, [] => true
-  | _, _, .buffer :: ops => stagewise [] [] ops
-  | w, r, .copy id _ :: ops => !w.contains id && !r.contains id && stagewise (id :: w) r ops
-  | w, r, .cut id _ :: ops => !w.contains id && !r.contains id && stagewise (id :: w) r ops
-  | w, r, op :: ops =>
-      match readsOf op with
-      | some id => !w.contains id && stagewise w (id :: r) ops
-      | none => stagewise w r ops
 
 def scalar? : Sexp → Option Fill.Scalar
   | .list [.str t, tr, isn] => do
@@ -133,19 +115,47 @@ def handle : List Sexp → Option Sexp
   | [.atom "chain", s, .list ops] => do
       let s ← streamOfSexp? s
       let ops ← ops.mapM op?
-      if !stagewise [] [] ops then pure (.atom "unmodelled") else
+      let ids := (dedup (writes ops)).mergeSort
+      let lazy := runLazy growth ops (fun _ => []) (markAll s)
+      if !stagewise [] [] ops then
+        -- the lazy interleaving is observable: the chain as the code runs it
+        match lazy with
+        | .ok (out, b) =>
+            pure (.list [.atom "ok", mstreamToSexp out, bufFToSexp b ids, streamToSexp (unmark out),
+                         ofBool (lazySelOk growth (segs ops) (fun _ => []) (markAll s)), .atom "lazy"])
+        | _ => pure (.atom "err")
+      else
       match transformMarked ops s with
-      | none => pure (.atom "err")
+      | none => pure (.list [.atom "err", ofBool (match lazy with | .ok _ => false | _ => true)])
       | some (out, b) =>
-          let ids := (dedup (writes ops)).mergeSort
+          -- stage-wise model; last item: the lazy model gives the same (theorem `lazy_agrees_stagewise`)
+          let agree := match lazy with
+            | .ok (out', b') => decide (out' = out) && ids.all (fun i => decide (b' i = b.get i))
+            | _ => false
           pure (.list [.atom "ok", mstreamToSexp out, bufsToSexp b ids, streamToSexp (unmark out),
-                       ofBool (chainSelOk ops [] (markAll s))])
+                       ofBool (chainSelOk ops [] (markAll s)), ofBool agree])
   | [.atom "fill", c, s] => do
       let c ← cfg? c
       let s ← streamOfSexp? s
       match Fill.fill c s with
       | none => pure (.atom "err")
       | some out => pure (.list [.atom "ok", streamToSexp out])
+  | [.atom "derive", root, .list ds] => do
+      -- the chains (link names) of all transformer objects after every derivation
+      let ds ← ds.mapM fun
+        | .list [k, x] => do let k ← k.toNat?; pure (k, x)
+        | _ => none
+      pure (.list ((history [[root]] ds).map fun snap => .list (snap.map .list)))
+  | [.atom "fillspec", c, s] => do
+      -- the documentation semantics of the filler on the forest `parse` reads; `outside` = the
+      -- forest is not in `okForest` (the recorded findings), `unmodelled` = not a well-nested stream
+      let c ← cfg? c
+      let s ← streamOfSexp? s
+      match Fill.parse s with
+      | none => pure (.atom "unmodelled")
+      | some ns =>
+          if Fill.okForest c ns then pure (.list [.atom "ok", streamToSexp (flattenList (Fill.fillSpec c ns))])
+          else pure (.atom "outside")
   | _ => none
 
 end Driver.C20
